@@ -70,7 +70,11 @@ def io_workload(rng, prop):
 def gen_spec(prop, rng, tier):
     wl = io_workload(rng, prop)
     w = gen.gen_world(rng)
-    w['clock_epoch'] = rng.choice([0, 86400 * 31 - 1, 951782400, 1700000000, 4102444799, rng.randrange(0, 4102444800)])
+    # epochs: 1970, month/year roll-overs, every month (name lengths 3..9 letters), 2038 boundary, a pre-1970
+    # clock, and the first five-digit year
+    w['clock_epoch'] = rng.choice([0, 86400 * 31 - 1, 951782400, 1700000000, 4102444799, 2 ** 31 - 1, 2 ** 31, -1, -86400 * 365 * 30,
+                                   253402300800 + rng.randrange(0, 86400 * 400), 1693526400 + rng.randrange(0, 86400 * 30),
+                                   rng.randrange(0, 4102444800), rng.randrange(0, 4102444800)])
     w['clock_step'] = rng.choice([0, 0, 1, 61, 3600])
     w['chunk_mode'] = rng.randrange(4)
     spec = {'kind': prop, 'prop': prop, 'wl': wl, 'nthreads': rng.choice([1, 2, 4, 8]), 'world': w}
@@ -316,7 +320,11 @@ def nontrivial_keys(spec, results):
     if r.crashed():
         return keys
     if spec['kind'] == 'C15':
-        month = (spec['world']['clock_epoch'] // (86400 * 30)) % 12
+        import time as _t
+        try:
+            month = _t.gmtime(spec['world']['clock_epoch']).tm_mon
+        except (OverflowError, OSError, ValueError):
+            month = 0
         for f, path in spec['outs']:
             cls = 'stdout' if not path else ('long' if len(path) > 150 else ('dir' if '/' in path else 'plain'))
             keys.append('%s:%s:%s:%d' % (h, f, cls, month))
